@@ -1168,6 +1168,17 @@ def write_history_probe(chk, exe, root, stats, ncases):
         c.hdir = c.write(os.path.join(root, "h"))
         c.fdir = c.write(os.path.join(root, "f"))
         cases.append(c)
+    # witness of K_PUTHERE, every run: a write through PHASE -1 at sample 0 lands where the read left the pointer
+    w = Case.__new__(Case)
+    w.rng = rng; w.idx = 799999; w.drv = []; w.alter = []; w.lb = -1
+    w.files = {"format": b"/ENCODING none\n/ENDIAN little\n/FRAMEOFFSET 3\nr0 RAW INT64 4\nf2 PHASE r0 -1\n",
+               "r0": b"".join(struct.pack("<q", v) for v in range(1, 21))}
+    w.fields = [("r0", "raw", 0, 4, True, True, False, False), ("f2", "phase", 1, 4, True, True, False, False)]
+    w.ops = ["G r0 6 10 8", "P f2 0 2", "G r0 6 10 8"]
+    w.here_at = 1
+    w.hdir = w.write(os.path.join(root, "h"))
+    w.fdir = w.write(os.path.join(root, "f"))
+    cases.append(w)
     jobs = vlib.NPROC
     chunks = [ch for ch in (cases[i::jobs] for i in range(jobs)) if ch]
 
@@ -1335,6 +1346,7 @@ def main():
         "value algebra coq/C01/Inst.v: C arithmetic via Flocq binary64 and GD.C06.Convert casts; the theorems hold for every algebra, so this is trusted only for the correspondence and for the refutation witnesses",
         "extraction: ExtrOcamlBasic only; OCaml 4.13 driver ocaml/C01/driver.ml; C harness harness/C01/rd.c (gcc -O1, -ffp-contract=off, x86-64 little-endian)",
         "generator/judge in checks/C01.py (python3)",
+        "write-history probe: no model -- a handle with a history of reads and writes is compared with fresh handles on a second copy of the dirfile that receives the same writes",
     ]
     chk.assumptions += [
         "counts are far below GD_TRANSACTION_MAX and 2^31 (the (int) cast of num_samp2 and the 2^63 range checks are not modelled)",
